@@ -24,6 +24,27 @@ PASS_THROUGH_SUFFIX = (
 POLL = "std::future::Future::poll"
 
 
+import re as _re
+_GEN = _re.compile(r"::<[^<>]*>")
+_norm_cache = {}
+
+
+def norm(c):
+    """callee path with every `::<...>` generic-argument segment removed (HashMap::<K, V>::insert -> HashMap::insert)"""
+    if c is None:
+        return ""
+    r = _norm_cache.get(c)
+    if r is None:
+        r = c
+        while True:
+            n = _GEN.sub("", r)
+            if n == r:
+                break
+            r = n
+        _norm_cache[c] = r
+    return r
+
+
 def callee_of(t):
     """(written path, resolved path or written) of a call terminator; (None, None) for indirect calls"""
     f = t["f"]
@@ -196,8 +217,10 @@ class Body:
 
     def calls_named(self, *names):
         """call sites whose resolved/written callee equals or ends with `::name` for one of names"""
+        names = [norm(x) for x in names]
+
         def pred(c):
-            base = c
+            base = norm(c)
             for nme in names:
                 if base == nme or base.endswith("::" + nme):
                     return True
@@ -283,7 +306,13 @@ class Body:
         return self._uses.get(l, [])
 
     # ------------------------------------------------------------------ provenance
-    def origins(self, x, depth=40):
+    def via(self, x, depth=40):
+        """base names of the value-preserving calls a value passed through on its way from its origins"""
+        v = set()
+        self.origins(x, depth, via=v)
+        return v
+
+    def origins(self, x, depth=40, via=None):
         """Origins of an operand or place: set of tuples
              ('param', name_or_index, fieldpath)   – argument / captured variable (+ field names)
              ('const', def_or_None, value)         – named or literal constant
@@ -362,6 +391,8 @@ class Body:
                             p2 = p2[1:]
                         elif w and (w.endswith("::branch")) and p2 and p2[0] == "0":
                             p2 = p2[1:]
+                        if via is not None:
+                            via.add(r or w)
                         from_operand(payload["args"][0], p2, d - 1)
                     else:
                         out.add(("call", r or w or "<indirect>", bi, path))
